@@ -95,11 +95,13 @@ PARSE_CONTRACT = ('__CPROVER_requires(__CPROVER_w_ok(s_p, sizeof(*s_p)) && VP_NU
 NUM_STUBS = '''
 #undef strtod
 #undef strtol
+long g_strtol_value;          /* ghost: what strtol returned */
+#define VP_MAY_THROW_OptionError (g_strtol_value < INT_MIN || g_strtol_value > INT_MAX)
 /* strtol / strtod never read past the first NUL: the end pointer is between the start and the known NUL */
 long strtol(const char *p, char **endp, int base) {
   __CPROVER_assert(VP_NUL_AT_OR_AFTER(p), "strtol: argument is a NUL-terminated string");
   size_t k = nondet_size_t(); __CPROVER_assume(k <= VP_WITNESS_LEN(p));
-  *endp = (char *)p + k; return nondet_long();
+  *endp = (char *)p + k; g_strtol_value = nondet_long(); return g_strtol_value;
 }
 double strtod(const char *p, char **endp) {
   __CPROVER_assert(VP_NUL_AT_OR_AFTER(p), "strtod: argument is a NUL-terminated string");
@@ -112,7 +114,11 @@ double strtod(const char *p, char **endp) {
 def parse_num_fn(T):
     anchor = {'int': r'int OptionHelper<int>::Parse\(const char \*\s*&?\s*s, bool\)',
               'double': r'double OptionHelper<double>::Parse\(const char \*\s*&?\s*s, bool\)'}[T]
-    return Fn(SOLVER, anchor, '%s Parse_%s(const char **s_p, bool split)' % (T, T), contract=PARSE_CONTRACT % '',
+    extra = ''
+    if T == 'int':
+        # "sets exactly that option to exactly that value": the int handed on is the number strtol read (no silent truncation)
+        extra = ' __CPROVER_ensures(__CPROVER_return_value == g_strtol_value)'
+    return Fn(SOLVER, anchor, '%s Parse_%s(const char **s_p, bool split)' % (T, T), contract=(PARSE_CONTRACT % (', g_strtol_value' if T == 'int' else '')) + extra,
               refs={'s': 's_p'}, label='mp::internal::OptionHelper<%s>::Parse' % T, nmatches=1)
 
 
@@ -164,6 +170,7 @@ int has_errors_;
 static char *vp_buffer_resize(size_t n) { __CPROVER_assume(n == g_big_size); return g_big; }
 struct SolverOption *FindOption(const char *name, bool wildcardvalues) {
   __CPROVER_assert(__CPROVER_r_ok(name, 1), "FindOption: name buffer readable");
+  g_opt.flag = nondet_bool();
   return nondet_bool() ? &g_opt : (struct SolverOption *)0;
 }
 int g_may_throw;
@@ -171,13 +178,14 @@ int g_may_throw;
 void HandleUnknownOption(const char *name) { VP_THROWING_CALL; has_errors_ = 1; }
 #define ReportError(...) (has_errors_ = 1)
 void vp_print(void) {}
-bool vp_opt_is_flag(struct SolverOption *o) { return nondet_bool(); }
+bool vp_opt_is_flag(struct SolverOption *o) { return o->flag; }      /* fixed per looked-up option (FindOption chooses it) */
 /* SolverOption::Parse -> TypedSolverOption<T>::Parse -> OptionHelper<T>::Parse: contract proved by C11.Parse.* */
 void vp_opt_Parse(const char **s_p, bool split)
 __CPROVER_requires(__CPROVER_w_ok(s_p, sizeof(*s_p)) && VP_NUL_AT_OR_AFTER(*s_p))
 __CPROVER_ensures(FWD(*s_p, __CPROVER_old(*s_p))) __CPROVER_assigns(*s_p);
 enum { NO_OPTION_ECHO = 1, FROM_COMMAND_LINE = 2 };
 /* 'name=?' leaves all values unchanged: the value parser is never invoked on a query token ('?' followed by the end of the text or white space) */
+#define VP_NOT_FLAG_WITH_VALUE(eq, opt) __CPROVER_assert(!((eq) && (opt)->flag), "a value given to a flag is reported as an error: the option is not parsed (no option changes)")
 #define VP_NOT_A_QUERY(s) __CPROVER_assert(!((s)[0] == '?' && ((s)[1] == 0 || vp_isspace((s)[1]))), "a query 'name=?' does not reach the value parser: all option values stay unchanged")
 '''
 
@@ -186,15 +194,15 @@ def pos_fn():
     return Fn(SOLVER, r'void BasicSolver::ParseOptionString\(\s*const char \*s, unsigned flags\)',
               'void ParseOptionString(const char *s, unsigned flags)',
               contract='__CPROVER_requires(VP_NUL_AT_OR_AFTER(s) && g_big_size >= 1 && g_big_size <= 100001 && __CPROVER_OBJECT_SIZE(g_big) == g_big_size && __CPROVER_POINTER_OFFSET(g_big) == 0) '
-                       '__CPROVER_assigns(has_errors_, __CPROVER_object_whole(g_big))',
+                       '__CPROVER_assigns(has_errors_, g_opt, __CPROVER_object_whole(g_big))',
               subst=[(r'fmt::internal::MemoryBuffer<char, 50> name;', 'char *name;', 1),
                      (r'name\.resize\(name_size \+ 1\);', 'name = vp_buffer_resize(name_size + 1);', 1),
                      (r'SolverOption \*opt = ', 'struct SolverOption *opt = ', 1),
-                     (r'opt->Parse\(s, ', 'VP_NOT_A_QUERY(s); vp_opt_Parse(&s, ', 3),
+                     (r'opt->Parse\(s, ', 'VP_NOT_A_QUERY(s); VP_NOT_FLAG_WITH_VALUE(equal_sign, opt); vp_opt_Parse(&s, ', 3),
                      (r'opt->is_flag\(\)', 'vp_opt_is_flag(opt)', 2),
                      (r'Print\("  \{\}\\n", opt->echo_with_value\(\)\);', 'vp_print();', 1),      # R18: echo
                      (r"Print\(\"  \{\}\", opt->echo_with_value\(\) \+ '\\n'\);", 'vp_print();', 1)],
-              loops={0: '__CPROVER_assigns(s, has_errors_, __CPROVER_object_whole(g_big)) __CPROVER_loop_invariant(%s)' % INV,
+              loops={0: '__CPROVER_assigns(s, has_errors_, g_opt, __CPROVER_object_whole(g_big)) __CPROVER_loop_invariant(%s)' % INV,
                      1: '__CPROVER_assigns(s) __CPROVER_loop_invariant(%s && __CPROVER_POINTER_OFFSET(s) >= __CPROVER_POINTER_OFFSET(name_start)) %s' % (INV, DEC),
                      2: '__CPROVER_assigns(i, __CPROVER_object_whole(g_big)) __CPROVER_loop_invariant(i <= name_size) __CPROVER_decreases(name_size - i)'},
               label='mp::BasicSolver::ParseOptionString', nmatches=1)
@@ -216,6 +224,63 @@ void harness(void) { vp_one = 1; const char *s = vp_mkstring();
                    note='modular: scanners and value parsers by their contracts')
 
 
+PO_STUBS = '''
+int has_errors_; unsigned bool_options_, option_flag_save_;
+enum { SHOW_VERSION = 4, NO_OPTION_ECHO = 1, FROM_COMMAND_LINE = 2 };
+/* the environment: which of the three variables are set (arbitrary) */
+_Bool g_has_mp, g_has_exe, g_has_name; const char g_mp[2], g_exe[2], g_nm[2], g_path[4];
+static const char *vp_getenv_mp(void) { return g_has_mp ? g_mp : (const char *)0; }
+static const char *vp_getenv_exe(void) { return g_has_exe ? g_exe : (const char *)0; }
+static const char *vp_getenv_name(void) { return g_has_name ? g_nm : (const char *)0; }
+size_t g_pathlen;
+static const char *exe_path(void) { return g_path; }
+#define strlen(p) g_pathlen
+static void ShowVersion(void) {}
+/* ghost: the sources handed to ParseOptionString, in order.  stage 0 nothing yet, 1 after mp_options, 2 after the solver variable, 3 command line */
+int g_stage, g_argi, g_nargs, g_read; const char **g_argv; unsigned g_flags0;
+const char g_tokens[1002];           /* argument k of the command line is the string at g_tokens + k; the array ends with a null pointer after g_nargs arguments */
+static const char *vp_next_arg(void) { const char *r = g_read < g_nargs ? g_tokens + g_read : (const char *)0; if (g_read <= g_nargs) g_read++; return r; }
+static void ParseOptionString(const char *s, unsigned flags) {
+  if (s == g_mp) { __CPROVER_assert(g_stage == 0 && g_has_mp, "mp_options is parsed first"); __CPROVER_assert(flags == g_flags0, "environment options are parsed with the caller's flags"); g_stage = 1; }
+  else if (s == g_exe) { __CPROVER_assert(g_stage <= 1 && (g_stage == 1) == g_has_mp && g_has_exe && g_pathlen != 0, "<executable>_options comes after mp_options"); __CPROVER_assert(flags == g_flags0, "environment options are parsed with the caller's flags"); g_stage = 2; }
+  else if (s == g_nm) { __CPROVER_assert(g_stage <= 1 && (g_stage == 1) == g_has_mp && g_has_name && !(g_has_exe && g_pathlen != 0), "<solver>_options comes after mp_options and only when no <executable>_options was found"); __CPROVER_assert(flags == g_flags0, "environment options are parsed with the caller's flags"); g_stage = 2; }
+  else {
+    __CPROVER_assert(g_argi < g_nargs && s == g_tokens + g_argi, "command-line arguments are parsed in their order, after the environment");
+    __CPROVER_assert((g_stage >= 1) == (g_has_mp || g_stage >= 2) && (g_stage == 3 || g_argi == 0), "the command line comes last");
+    __CPROVER_assert((g_stage == 2 || g_stage == 3 || !((g_has_exe && g_pathlen != 0) || g_has_name)), "the solver's environment variable, when set, is parsed before the command line");
+    __CPROVER_assert(flags == (g_flags0 | FROM_COMMAND_LINE), "command-line options are parsed with FROM_COMMAND_LINE");
+    g_stage = 3; g_argi++; }
+}
+'''
+
+
+def h_parse_options():
+    """BasicSolver::ParseOptions: the order of the sources (mp_options, <executable>_options or else <solver>_options, command line)"""
+    fn = Fn(SOLVER, r'bool BasicSolver::ParseOptions\(char \*\*argv, unsigned flags, const ASLProblem \*\)', 'bool ParseOptions(const char **argv, unsigned flags)',
+            contract='__CPROVER_requires(g_stage == 0 && g_argi == 0 && g_read == 0 && g_nargs >= 0 && g_nargs <= 1000 && flags == g_flags0 && (flags & FROM_COMMAND_LINE) == 0) '
+                     '__CPROVER_ensures(argv == 0 || g_argi == g_nargs) '
+                     '__CPROVER_ensures(g_has_mp ==> g_stage >= 1) '
+                     '__CPROVER_ensures(((g_has_exe && g_pathlen != 0) || g_has_name) ==> g_stage >= 2) '
+                     '__CPROVER_ensures(__CPROVER_return_value == !has_errors_) '
+                     '__CPROVER_assigns(has_errors_, bool_options_, option_flag_save_, g_stage, g_argi, g_read)',
+            subst=[(r'\*argv\+\+', 'vp_next_arg()', 1), (r'std::getenv\("mp_options"\)', 'vp_getenv_mp()', 1),
+                   (r'path p\(s\);.*?exe_basename = exe_basename\.substr\(0, pt\);\s*\}', '', 1),
+                   (r'std::getenv\(\(exe_basename \+ "_options"\)\.c_str\(\)\)', 'vp_getenv_exe()', 1),
+                   (r'std::getenv\(\(name_ \+ "_options"\)\.c_str\(\)\)', 'vp_getenv_name()', 1)],
+            loops={0: '__CPROVER_assigns(g_stage, g_argi, g_read, has_errors_) __CPROVER_loop_invariant(0 <= g_argi && g_argi <= g_nargs && g_read == g_argi && '
+                      '(g_argi > 0 ==> g_stage == 3) && (g_argi == 0 ==> g_stage == __CPROVER_loop_entry(g_stage))) __CPROVER_decreases(g_nargs - g_argi)'},
+            label='mp::BasicSolver::ParseOptions', nmatches=1)
+    parts = ['#include "mp_shim.h"\nint vp_one;\n', PO_STUBS, fn, '''
+void harness(void) { vp_one = 1;
+  g_has_mp = nondet_bool(); g_has_exe = nondet_bool(); g_has_name = nondet_bool(); g_pathlen = nondet_size_t(); g_flags0 = nondet_unsigned(); g_nargs = nondet_int();
+  g_argv = nondet_bool() ? (const char **)g_tokens : (const char **)0; g_stage = 0; g_argi = 0; g_read = 0; has_errors_ = nondet_int();
+  ParseOptions(g_argv, g_flags0); VP_REACH("normal return"); }
+''']
+    return Harness('C11.ParseOptions.order', 'C11', parts, enforce='ParseOptions', loop_contracts=True, expect_loop_obligations=1, timeout=300,
+                   stubs=['std::getenv (arbitrary environment)', 'ParseOptionString (ghost: asserts the order and the flags of the sources)', 'std::filesystem::path / basename computation (dropped: the name of the executable-specific variable is opaque)'],
+                   note='later sources override earlier ones because each assignment sets the option (C11.ParseOptionString) and the sources are parsed in this order')
+
+
 _drv = [None]
 
 
@@ -233,7 +298,7 @@ def replay(lead, inputs, obs):
 
 def harnesses(tier, seed):
     hs = [h_scanner(n) for n in SCANNERS]
-    hs += [h_parse_num('int'), h_parse_num('double'), h_parse_string(), h_pos()]
+    hs += [h_parse_num('int'), h_parse_num('double'), h_parse_string(), h_pos(), h_parse_options()]
     for h in hs:
         h.replay = replay
     return hs
